@@ -4,6 +4,8 @@ package main
 //
 //	2000  a data flush starts between the replicator's WriteRows and CommitSequence of an entry for an existing series
 //	2001  a row with new names is applied right after the metadata flush swapped its stores; index and data flush follow
+//	2003  a memory database of one family is closed while the first row of a brand-new metric, written into another
+//	      family of the shard, still waits for the shard's (parked) index worker
 //	2002  the log partition of an old family is drained and removed by the WAL garbage collector, then a late write
 //	      re-creates it: the new log starts at sequence 0, the family refuses everything up to its stored sequence
 //
@@ -57,6 +59,35 @@ func directedPlan(n int, t0 int64) *plan {
 			{Kind: "meta", Cycle: 1, CycKind: "quiet"},
 			{Kind: "index", Cycle: 1, CycKind: "quiet", Shard: 0},
 			{Kind: "data", Cycle: 1, CycKind: "quiet", Shard: 0, Family: old},
+		}
+	case 3:
+		// three families of one shard share the shard's memory index database and its one index worker:
+		// A gets a point of a known series (no work for the index worker), the worker is parked while it indexes a new
+		// series written into C, the first row of a brand-new metric is written into B (its time series index exists, the
+		// row waits in the worker's channel), the memory database of A is flushed and closed (IndexDatabase.Cleanup),
+		// the worker goes on.
+		famB, famC := fam-hourMs, fam-2*hourMs
+		p.Families = []int64{fam, famB, famC}
+		rb := row("mx", "u3", "h1", 30, true)
+		rb.Family = famB
+		rc := row("m0", "u2", "h1", 31, true)
+		rc.Family = famC
+		p.Steps = []planStep{
+			{Kind: "arrive", Cycle: -1, Actions: appendRepl(row("m0", "u1", "h1", 10, true))},
+			{Kind: "meta", Cycle: 0, CycKind: "quiet"},
+			{Kind: "index", Cycle: 0, CycKind: "quiet", Shard: 0},
+			{Kind: "data", Cycle: 0, CycKind: "quiet", Shard: 0, Family: fam},
+			{Kind: "cleanup-race", Cycle: 1, Shard: 0, Family: fam, Actions: []action{
+				{Kind: "append", Rows: []rowRec{row("m0", "u1", "h1", 11, false)}, Writers: 1}, // A
+				{Kind: "append", Rows: []rowRec{rc}, Writers: 1},                               // C: parks the worker
+				{Kind: "append", Rows: []rowRec{rb}, Writers: 1},                               // B: brand-new metric
+			}},
+			{Kind: "arrive", Cycle: 1, Actions: []action{{Kind: "replicate", Steps: -1}}},
+			{Kind: "meta", Cycle: 2, CycKind: "quiet"},
+			{Kind: "index", Cycle: 2, CycKind: "quiet", Shard: 0},
+			{Kind: "data", Cycle: 2, CycKind: "quiet", Shard: 0, Family: fam},
+			{Kind: "data", Cycle: 2, CycKind: "quiet", Shard: 0, Family: famB},
+			{Kind: "data", Cycle: 2, CycKind: "quiet", Shard: 0, Family: famC},
 		}
 	default:
 		p.Steps = []planStep{
